@@ -365,6 +365,34 @@ def work_union(task):
     return ev
 
 
+def work_lazy(task):
+    """Work is done when it is asked for: a sub-expression whose k-th result fails hands out k-1 results first,
+    wherever it stands (top level, format splice, body of a let, branch of an alternation, behind a filter) -- a
+    construct that computes ahead of what it has been asked for shows here as a failure that comes too early."""
+    ev = Evidence()
+    drv = Driver()
+    try:
+        for n in range(2, 7):
+            for k in range(1, n + 1):
+                items = ", ".join(str(i) for i in range(1, n + 1))
+                body = "(%s) if ( == %d) then (drop drop) else ()" % (items, k)
+                for q, before in ((body, k - 1), ('"<%%( %s %%)>"' % body, k - 1), ("let A := %s; A" % body, k - 1), ("(0, %s)" % body, k),
+                                  ("%s 10 add" % body, k - 1), ('"%%( %s %%)" length' % body, k - 1), ("(%s || 99)" % body, k - 1),
+                                  ('"a%%( %s %%)b" "<%%s>"' % body, k - 1)):
+                    r = drv.run(q, limit=100, steps=100000)
+                    ev.case(key=("lazy", q), nontrivial=True)
+                    ev.label("lazy-failure")
+                    if not ("error" in r and r["error"] and len(r.get("res", [])) == before and not r.get("end")):
+                        ev.violations.append({"property": PID, "query": q, "signature": "C01:lazy:" + q, "lazy_before": before,
+                                              "reason": "the %d-th result of the sub-expression fails: expected %d result(s) and then the failure, got %d result(s), %s"
+                                              % (k, before, len(r.get("res", [])), ("failure %r" % r["error"]) if r.get("error") else "no failure")})
+    except (DriverCrash, DriverTimeout) as e:
+        ev.violations.append({"property": PID, "query": "lazy failures", "reason": "crashed or hung: " + str(e)[-1500:], "signature": "C01:lazy-crash"})
+    finally:
+        drv.kill()
+    return ev
+
+
 def main(tier, seed):
     t0 = time.time()
     if tier == "quick":
@@ -383,6 +411,7 @@ def main(tier, seed):
     step = nctx // 48 + 1
     ev.merge(run_pool(work_ctx, [(lo, lo + step) for lo in range(0, nctx, step)]))
     ev.extra["context_programs"] = nctx
+    ev.merge(run_pool(work_lazy, [0]))
     per = max(100, nunion // 32)
     ev.merge(run_pool(work_union, [(seed, s, min(per, nunion - s), depth) for s in range(0, nunion, per)]))
     ev.extra["exhaustive_programs"] = total
@@ -410,8 +439,11 @@ def replay(path):
     drv = Driver()
     node = eval(rec["ast"], {"__builtins__": {}}) if "ast" in rec else None
     if node is None:
-        r = drv.run(rec["query"])
+        r = drv.run(rec["query"], limit=100, steps=100000)
         print(r)
+        drv.kill()
+        if "lazy_before" in rec:
+            return 0 if (r.get("error") and len(r.get("res", [])) == rec["lazy_before"] and not r.get("end")) else 1
         return 0
     stack = decode_stack(rec.get("stack_enc", []))
     o = run_case(drv, node, stack)
